@@ -129,7 +129,7 @@ def cases(ctx):
     rng = ctx.rng
     amps = [308, 512, 717, 1024, 1229, 1433]          # 0.30 .. 1.40 in 1/1024
     ratios = [0.0, 0.05, 0.1, 0.19, 0.21, 0.25, 0.31]
-    for _ in range(ctx.n(350, 20000)):
+    for _ in range(ctx.n(350, 3000)):
         amp = rng.choice(amps)
         ratio = rng.choice(ratios)
         kind = rng.choice(["const", "uniform"])
@@ -153,7 +153,7 @@ def cases(ctx):
             yield dict(op="demod - %d %s" % (DEN, ",".join(map(str, buf))), real=("h:props.C19.run_demod", [buf, DEN, None]),
                        pred=["pred_frames", e, 0], tag="tail-%d" % tail, info=dict(amp=amp, ratio=0.0, tail=tail), trivial=not exp)
     # long busy buffers (the noise floor must come from 100-microsecond windows)
-    for _ in range(ctx.n(2, 40)):
+    for _ in range(ctx.n(2, 10)):
         buf, exp = build_busy(rng, rng.randrange(410, 425))     # about 204800 samples, the reader's real buffer size
         e = ",".join(exp) if exp else "-"
         yield dict(op="demod - %d %s" % (DEN, ",".join(map(str, buf))), real=("h:props.C19.run_demod", [buf, DEN, None]),
